@@ -7,6 +7,7 @@ mod hand;
 mod meta;
 mod mi;
 mod tr;
+mod tr19;
 mod sess;
 mod util;
 mod wire;
@@ -20,6 +21,7 @@ fn run_line(prop: &str, args: &[&str]) -> String {
         "C04" => meta::run04(args),
         "C05" | "C17" => mi::run(args),
         "C18" => tr::run18(args),
+        "C19" => tr19::run19(args),
         "C06" => conn::run(args),
         "C08" | "C09" | "C10" | "C11" | "C20" | "C01" => hand::run(args),
         "C07" => wire::run(args),
@@ -38,6 +40,7 @@ fn gen(prop: &str, rng: &mut Rng, n: usize) -> Vec<String> {
         "C04" => meta::gen04(rng, n),
         "C05" => mi::gen05(rng, n),
         "C17" => mi::gen17(rng, n),
+        "C19" => tr19::gen19(rng, n, std::env::args().nth(5).map(|t| t == "thorough").unwrap_or(false)),
         "C18" => tr::gen18(rng, n, std::env::args().nth(5).map(|t| t == "thorough").unwrap_or(false)),
         "C06" => conn::gen(rng, n),
         "C08" | "C09" | "C10" | "C11" | "C20" | "C01" => hand::gen(rng, n, prop),
@@ -122,6 +125,11 @@ fn main() {
     let stdout = std::io::stdout();
     let mut out = std::io::BufWriter::new(stdout.lock());
     match argv.get(1).map(|s| s.as_str()) {
+        // harness child-e2e19 <k> <kinds> <npeers>   (internal: spawned by `C19 e2e`)
+        Some("child-e2e19") => {
+            drop(out);
+            tr19::child_e2e19(argv[2].parse().expect("k"), &argv[3], argv[4].parse().expect("npeers"));
+        }
         // harness gen <PROP> <seed> <count>
         Some("gen") => {
             let prop = &argv[2];
